@@ -24,6 +24,15 @@ CORPUS = [
                                   {"name": "CNOT", "wires": [0, 1], "params": []}, {"name": "RZ", "wires": [1], "params": [["sin", 0]]},
                                   {"name": "IsingXX", "wires": [0, 1], "params": [["lin", 1, 2, 0]]}],
      "meas": [{"k": "expval", "word": ["Z"], "wires": [0]}]},
+    # two non-commuting FIXED gates between consecutive trainable layers (order in which they are un-applied matters)
+    {"nw": 2, "nx": 4, "steps": [{"name": "RX", "wires": [0], "params": [["lin", 0, 1, 0]]}, {"name": "RY", "wires": [1], "params": [["lin", 1, 1, 0]]},
+                                  {"name": "Hadamard", "wires": [0], "params": []}, {"name": "CNOT", "wires": [0, 1], "params": []},
+                                  {"name": "RZ", "wires": [1], "params": [["lin", 2, 1, 0]]}, {"name": "RY", "wires": [0], "params": [["lin", 3, 1, 0]]}],
+     "meas": [{"k": "expval", "word": ["Z"], "wires": [0]}]},
+    # controlled rotation (generator lists target before control) between other trainable layers
+    {"nw": 2, "nx": 4, "steps": [{"name": "RX", "wires": [0], "params": [["lin", 0, 1, 0]]}, {"name": "RY", "wires": [1], "params": [["lin", 1, 1, 0]]},
+                                  {"name": "CRX", "wires": [0, 1], "params": [["lin", 2, 1, 0]]}, {"name": "RY", "wires": [1], "params": [["lin", 3, 1, 0]]}],
+     "meas": [{"k": "expval", "word": ["Z"], "wires": [0]}]},
 ]
 
 
@@ -42,7 +51,7 @@ def run(ctx):
     from gradlib import GRAD_HEADER
     ctx.coq_props()
     quick = ctx.tier == "quick"
-    n_circ, n_proof = (6, 4) if quick else (60, 36)
+    n_circ, n_proof = (7, 5) if quick else (60, 36)
     A = ctx.run_impl("c38_impl.py", {"seed": ctx.seed, "n_circ": n_circ, "n_proof": n_proof, "corpus": CORPUS}, timeout=3000)
     obl = [(n, s, "vm_compute. reflexivity.") for n, s, ci in A["obligations"]]
     ci_of = {n: ci for n, s, ci in A["obligations"]}
